@@ -10,6 +10,15 @@ Tie:  translator G2p (`harness/translate/g2_persistence.py` -> `Gen/Persistence.
    of it (no shared parameters/modules), must keep the internal aliasing, and every non-persisted `__dict__` entry
    that changed during the history must be carried, or be an audited cache/scratch entry.  Loading into a model that
    has already predicted must not leave the old caches in effect.
+ (used-under phase)  the original's history runs inside a NON-DEFAULT instance of a global setting that the family
+   consults (every setting read anywhere in the package, found by a spy on the settings classes; also: in float32),
+   the environment is left, the mode is toggled (documented cache invalidation) and the object must then behave like a
+   fresh model that loaded its state_dict and never saw the environment.
+ (shared-argument phase)  two models are constructed from the SAME argument tensor objects (`V.arg` pool; families with
+   non-default constructor flags such as learn_inducing_locations=False and tensor-valued bounds / prior parameters);
+   loading a check-point into one and training it must move neither the other one nor the caller's tensors.
+ (read sets)  a `__getattribute__` spy records every `self.<attr>` load executed by package methods on real instances:
+   it must be listed in the static read table that theorem `reads_classified` is about.
  (model correspondence)  the Lean driver flattens / loads / copies the same module trees: key lists (exact order),
    which tensor sits under which key after a load, and which caches are alive afterwards are compared exactly.
 """
@@ -32,7 +41,12 @@ RULE = ("model families (exact GP x kernels x likelihoods x priors/constraints, 
         "multitask, variational x strategies x distributions, deep GP, model lists) x save points after prefixes of a "
         "train/eval/predict history x {state_dict->fresh model with different initialisation, pickle, deepcopy}; "
         "distinct = (family, history prefix, mechanism); non-trivial = the restored object differs from a plain "
-        "fresh construction (parameters were changed by the history or by the different initialisation)")
+        "fresh construction (parameters were changed by the history or by the different initialisation); "
+        "+ USED-UNDER phase: (global setting consulted by the family | float32) x families that consult it — the history "
+        "runs inside a non-default instance of the setting, everything is compared after leaving it; "
+        "+ SHARED-ARGUMENT phase: every family, two models constructed from the same argument tensor objects, a "
+        "check-point loaded into / training of one must move neither the other nor the caller's tensors; "
+        "+ dynamic self-attribute reads (__getattribute__ spy) must lie inside the static read table")
 EXHAUSTIVE = False
 TRUSTED = ["translator harness/translate/g2_persistence.py (Python ast -> class table)",
            "modelled not verified: torch nn.Module.state_dict/load_state_dict, pickle, copy.deepcopy (Persist.Tree)",
@@ -41,8 +55,16 @@ ASSUMPTIONS = ["training data, fixed observation noise and other constructor arg
                "fresh model is constructed (they are not part of a state_dict by design)",
                "the mode (train/eval) is re-established by the caller after load_state_dict (not part of a state_dict)",
                "optimizer state is outside the property",
-               "persistence_completeness_partial: that forward reads only persisted / constructor-determined state is "
-               "ENUMERATED over the families below, not proved"]
+               "persistence_completeness_partial: that methods read only persisted / constructor-determined / audited "
+               "state is PROVED for `self.<attr>` loads of the regenerated read table (reads_classified) and tied to the "
+               "implementation by a __getattribute__ spy (dynamic reads must be in the table); state reachable otherwise "
+               "(helper objects, process globals other than gpytorch.settings) is ENUMERATED over the families, not proved",
+               "caches computed inside a non-default settings environment are legitimately kept until the documented "
+               "invalidation points (train()/eval(), load_state_dict): the used-under phase toggles the mode after leaving "
+               "the environment (C03 exclusion)",
+               "constructor-time reads of global settings (ctorSettingsSnapshots: FixedGaussianNoise floor, default number "
+               "of quadrature nodes, LMCVariationalStrategy.jitter_val) count as constructor arguments: models are "
+               "constructed under default settings"]
 
 GEN = os.path.join(C.LEAN_DIR, "GPVerif", "Gen", "Persistence.lean")
 PROPS = os.path.join(C.LEAN_DIR, "GPVerif", "Props", "C18.lean")
@@ -545,7 +567,7 @@ def _register_families():
         mean.register_prior("raw_constant_prior", P.NormalPrior(v.pick(0.1, 0.0), v.pick(0.5, 0.7)), "raw_constant")
         return _exact(v, mean, k)
 
-    @family("exact/tensor_hyperargs", quick=True)
+    @family("exact/tensor_hyperargs")
     def _(v):
         # hyper-arguments given as TENSORS (bounds, prior parameters, active_dims): the script's tensors, see `V.arg`
         T_ = lambda key, *vals: v.arg(key, lambda: torch.tensor(list(vals)) if len(vals) > 1 else torch.tensor(vals[0]))  # noqa: E731
@@ -821,7 +843,7 @@ def _register_families():
     def _(v):
         return approx(v, lambda m, Z, vd: Vv.UnwhitenedVariationalStrategy(m, Z, vd, learn_inducing_locations=False))
 
-    @family("svgp/whitened_fixed_inducing", quick=True)
+    @family("svgp/whitened_fixed_inducing")
     def _(v):
         return approx(v, lambda m, Z, vd: Vv.VariationalStrategy(m, Z, vd, learn_inducing_locations=False), dist="meanfield")
 
